@@ -122,6 +122,19 @@ Example C11_output_star_stays : forall f,
   = Ok [(TNone, [101; 99; 104; 111]); (TNone, [42; 46; 116; 120; 116])].
 Proof. exact output_star_by_theorem. Qed.
 
+(** "cmd runs exactly once", at the level this model has it -- the log of inner lines handed to the runner by
+    do_expansion_log: for the assignment word NAME=$(c), alone on the line, the log is [c] and the word becomes
+    NAME=output.  What is OUTSIDE Model/Expand.v: the caller.  execute::run_proc's assignment-only branch takes the
+    assignments of the planned line (cl.envs) and must not expand the line a second time; that is execute.rs glue,
+    tied to the code by the process-level layer L2a only (counter files: exactly one run per substitution written). *)
+Theorem C11_assignment_once : forall W f name c,
+  is_name name = true -> aliases W (aword name c) = None ->
+  c <> [] -> ~ In 36 c -> ~ In 123 c -> ~ In 42 c -> ~ In 96 c -> ~ In 41 c -> ~ In 10 c -> ~ In 126 c -> ~ In 39 c ->
+  has_dollar_paren (trim (oracle_out W c)) = false -> ~ In 123 (trim (oracle_out W c)) ->
+  do_expansion_log Tokenizer.parse_line W (S (S f)) [(TNone, aword name c)]
+  = Ok ([(TNone, name ++ 61 :: trim (oracle_out W c))], [c]).
+Proof. exact assignment_substituted_once. Qed.
+
 (** Regression for 5e2d7b7: the output a$1b is kept (it used to become a). *)
 Example C11_template_kept : forall f, (2 <= f)%nat ->
   dollar_loop f W_tpl [36; 40; 120; 41] [] = Ok (Some [97; 36; 49; 98], [[120]]).
@@ -176,5 +189,6 @@ Print Assumptions C11_terminates.
 Print Assumptions C11_backquote.
 Print Assumptions C11_backquote_two.
 Print Assumptions C11_output_not_globbed.
+Print Assumptions C11_assignment_once.
 Print Assumptions C11_variant_dq.
 Print Assumptions C11_two_substitutions.
